@@ -499,10 +499,29 @@ def rule_privacy(rep, prog):
     return n
 
 
+def rule_get_slice_forwarders(rep, prog, eff):
+    """R1.2.get_slice_forward: an implementation of VolatileMemory::get_slice that hands the request on to another accessor-producing
+    method of the crate (VolatileSlice: `self.subslice(offset, count)`) passes its own (offset, count), in this order — every
+    `via_get_slice` sink relies on get_slice(o, n) being the range [o, o + n) (found by a sweep that swapped the two arguments)"""
+    n = 0
+    for b in prog.bodies:
+        if b.impl_trait != "volatile_memory::VolatileMemory" or b.name != "get_slice" or b.kind == "Closure":
+            continue
+        rts = [deep_strip(t) for _p, t in b.return_terms()]
+        for t in rts:
+            if t[0] == 'call' and t[1] in prog.by_id and len(t[2]) == 3 and canon(t[1]).split("::")[-1] in ("subslice", "get_slice"):
+                n += 1
+                a = [unref(x) for x in t[2]]
+                ok = a[0][:2] == ('param', 1) and a[1][:2] == ('param', 2) and a[2][:2] == ('param', 3)
+                rep("R1.2.get_slice_forward", b.key, ok, b.where(), f"forwards ({', '.join(tstr(x) for x in a)}); required (self, offset, count)")
+    return n
+
+
 def run(ctx, progs):
     for cfg, prog in progs.items():
         ctx.config = cfg
         eff = effects.Effects(prog)
+        rule_get_slice_forwarders(ctx.ob, prog, eff)
         n = rule_sinks(ctx.ob, prog, eff)
         ctx.floor("R1.1.sinks", n, 14, MIN=13)
         n = rule_references(ctx.ob, prog, eff)
